@@ -27,10 +27,15 @@ def explore(ctx):
     # expansion of a macro use, its last operand, a clause body ...)
     combos += [(kind, "derived", t, fl) for kind in ("unbound-ref", "non-procedure") for t in gen.LOC_DERIVED
                for fl in gen.LOC_FAULTS[kind]]
+    # faults reached through the templates of the program's own macros (free identifiers, also under an ellipsis)
+    combos += [("unbound-or-non-procedure", "user-macro", None, None)] * (300 if ctx.quick else 3000)
     for kind, context, template, fault in combos:
         if True:
             if True:
-                forms, idx, marker = gen.located_fault_program(ctx.rng, kind, context, template, fault)
+                if context == "user-macro":
+                    forms, idx, marker = gen.user_macro_fault_program(ctx.rng)
+                else:
+                    forms, idx, marker = gen.located_fault_program(ctx.rng, kind, context, template, fault)
                 text, extents, ends = gen.layout_program(ctx.rng, forms)
                 lines = ["NEW 0 std", "EVAL 0 " + h(text),
                          "FILE %s %s %s" % (h("prog"), h("main.scm"), h("(import (scheme base) (scheme write))\n" + text)),
@@ -101,7 +106,7 @@ def explore(ctx):
         "disagreements": ndis,
         "locations_outside_the_form": outside,
         "rule": "8 fault kinds x 6 contexts (direct, nested in data construction, in an immediately called lambda, under apply, in "
-                "a lambda handed to map/for-each/fold-left, inside a derived form) x %d seeds, the fault written in the failing "
+                "a lambda handed to map/for-each/fold-left, inside a derived form; plus faults reached through free identifiers of the templates of the program's own macros, also under an ellipsis for the k-th of n items) x %d seeds, the fault written in the failing "
                 "top-level form itself, preceded by 0-5 valid forms, everything laid out with random line breaks, indentation, "
                 "tabs and comments, identifiers that begin with a sign or a dot (->n -neg +pos ...) and signed / rational / real literals on the "
                 "line of the fault, the extent of every form recorded by the renderer; whole-text evaluation through the library "
